@@ -1,6 +1,7 @@
 package main
 
 import (
+	"fmt"
 	"go/token"
 
 	"golang.org/x/tools/go/ssa"
@@ -12,7 +13,7 @@ func init() { register("C01", propC01) }
 func propC01(c *Check) {
 	c.Explain = "Decides the control-flow and dataflow shape of value conservation: (1) validateOutputs sums every output amount exactly once per iteration (accumulator phi shape), rejects non-positive output amounts per iteration, and every accepting return passes the inputAmount.Cmp(outputAmount)!=0 reject gate; (2) validateInputs adds the *stored* UTXO amount (result of store.ReadUTXOLock) exactly once per ordinary input, gates each iteration on utxo!=nil, utxo.Asset==tx.Asset and the duplicate hash:index filter, and its only early accepts are the mint/deposit returns; (3) Validate places inputAmount.Sign()<=0 reject between validateInputs and validateOutputs and passes validateInputs' amount result to validateOutputs; (4) validateMint/validateDeposit gate len(Inputs)==1; (5) Integer.Add/Sub keep their sign/underflow panics."
 	c.NotCov = "big.Int arithmetic itself; positivity of amounts already stored in the ledger (history); 'exactly one asset' is decided as 'every summed input carries tx.Asset'."
-	c.Floor(16)
+	c.Floor(20)
 	intSign := func(x VM) VM { return Call("(common.Integer).Sign", x) }
 
 	// ---- validateOutputs
@@ -100,6 +101,65 @@ func propC01(c *Check) {
 	if f := c.F("(*common.Transaction).verifyDepositData"); f != nil {
 		c.MustPass(f, Gate{Name: "deposit.Amount.Sign() <= 0 => reject", RejectOnTrue: true,
 			Cond: Bin(token.LEQ, intSign(Path(Param("tx"), "Inputs.[].Deposit.Amount")), ConstInt(0))}, acceptReturns(f), "any accepting return")
+	}
+
+	// ---- classification: a mint / deposit / genesis record in ANY input position decides the
+	// transaction type (so the single-input gates of validateMint / validateDeposit apply to every
+	// transaction for which validateInputs takes the early "amount from the input itself" return)
+	if tt := c.F("(*common.SignedTransaction).TransactionType"); tt != nil {
+		lp := c.RangeLoop(tt, "inputs", Path(Param("tx"), "Inputs"))
+		if lp != nil {
+			kinds := []struct{ field, konst string }{{"Mint", "TransactionTypeMint"}, {"Deposit", "TransactionTypeDeposit"}, {"Genesis", "TransactionTypeUnknown"}}
+			lp.exempt = func(r *ssa.Return) bool {
+				for _, k := range kinds {
+					if len(r.Results) == 1 && c.W.ConstNamed("common", k.konst)(r.Results[0]) {
+						return true
+					}
+				}
+				return false
+			}
+			hcut := map[Edge]bool{}
+			for _, p := range lp.Header.Preds {
+				hcut[Edge{p.Index, lp.Header.Index}] = true
+			}
+			for _, k := range kinds {
+				cv := c.W.ConstNamed("common", k.konst)
+				cond := BinEither(token.NEQ, Path(Param("tx"), "Inputs.[]."+k.field), ConstNil)
+				c.LoopGate(tt, lp, Gate{Name: "in." + k.field + " != nil => typed return", RejectOnTrue: true, Cond: cond},
+					"every input is inspected; an iteration completes only when the record is absent")
+				// the record-present edge reaches only returns of the matching type constant
+				n, bad := 0, ""
+				for _, iff := range findIfs(tt, cond) {
+					for bi := range reachable(tt, iff.Block().Succs[0], hcut) {
+						for _, ins := range tt.Blocks[bi].Instrs {
+							if r, ok := ins.(*ssa.Return); ok {
+								if len(r.Results) == 1 && cv(r.Results[0]) {
+									n++
+								} else {
+									bad = instrPos(c.W, r)
+								}
+							}
+						}
+					}
+				}
+				c.Require(n > 0 && bad == "", "classify", shortName(tt)+"|in."+k.field+" != nil => "+k.konst, "an input carrying a "+k.field+" record makes the transaction type "+k.konst, fmt.Sprintf("matching returns=%d, other return reachable at %q", n, bad), c.W.Pos(tt.Pos()))
+			}
+			// no return is reachable without running the input scan
+			cut := map[Edge]bool{}
+			for _, p := range lp.Header.Preds {
+				cut[Edge{p.Index, lp.Header.Index}] = true
+			}
+			seen := reachable(tt, tt.Blocks[0], cut)
+			early := ""
+			for bi := range seen {
+				for _, ins := range tt.Blocks[bi].Instrs {
+					if r, ok := ins.(*ssa.Return); ok {
+						early = instrPos(c.W, r)
+					}
+				}
+			}
+			c.Require(early == "", "gate", shortName(tt)+"|input scan precedes every return", "every return of TransactionType is reached through the scan over all inputs", "a return at "+early+" is reachable without entering the input loop", c.W.Pos(tt.Pos()))
+		}
 	}
 
 	// ---- Integer.Add / Sub keep their guards (explicit panic gates)
